@@ -214,7 +214,7 @@ def body(m, cfg):
             for ws in wv:
                 for t in ws:
                     m.assume(m.Not(m.eq(t, 0)))
-        vv = [m.vals(c._array) for c in v._xyz.values()]
+        vv = [m.vals(c._array) for c in C.vcomps(v).values()]
         dg1, dg2 = Datagroup(), Datagroup()
         dg1["q"] = v
         dg2["q"] = v
@@ -239,7 +239,7 @@ def body(m, cfg):
             _check_updated(m, getattr(old, c), ex, sc, dim, tag + ":" + c, "other-reference", tol)
             _check_updated(m, getattr(dg2["q"], c), ex, sc, dim, tag + ":" + c, "alias-in-datagroup", tol)
         if rhs == "Vector":
-            for i, c in enumerate(w._xyz.values()):
+            for i, c in enumerate(C.vcomps(w).values()):
                 m.require(C.same_terms(m, m.vals(c._array), wv[i]) and C.unit_dim_ok(c.unit, db),
                           "right operand untouched", key=f"rhs-changed:{tag}")
         return
@@ -342,7 +342,7 @@ def _copy_of(obj, how):
 
 def _arrays_of(o):
     from osyris import Array
-    return [o] if isinstance(o, Array) else list(o._xyz.values())
+    return [o] if isinstance(o, Array) else list(C.vcomps(o).values())
 
 
 def _copies(m, cfg):
@@ -414,10 +414,10 @@ def _containers(m, cfg):
     m.require(C.same_terms(m, m.vals(g["a"]._array), m.vals(a._array)) and str(g["a"].unit) == str(a.unit),
               "deepcopy has the same contents", key=f"copy-equal:{tag}")
     snap = C.snapshot(m, a)
-    vs = [C.snapshot(m, x) for x in v._xyz.values()]
+    vs = [C.snapshot(m, x) for x in C.vcomps(v).values()]
     g["a"] *= bump
     g["v"] *= 2.0
-    m.require(C.unchanged(m, a, snap) and all(C.unchanged(m, x, s) for x, s in zip(v._xyz.values(), vs)),
+    m.require(C.unchanged(m, a, snap) and all(C.unchanged(m, x, s) for x, s in zip(C.vcomps(v).values(), vs)),
               "updating the deep copy leaves the original untouched", key=f"copy-to-original:{tag}")
     gs = C.snapshot(m, g["a"])
     a += bump
